@@ -201,11 +201,24 @@ def r3(ctx):
              ('free-connection', lambda ev: ev.kind == 'CALL' and ev.callee == 'free' and estr(ev.args[0]) == cv))
     for (nm, pred) in names:
         evs = [ev for ev in f.events() if pred(ev)]
-        if len(evs) != 1:
+        if len(evs) > 1:
             raise AnalysisBroken('qb_ipcs_connection_unref: %s sites = %d' % (nm, len(evs)))
+        if not evs:
+            ctx.check('R3', '%s-under-last-reference' % nm, False, f, '', 'the final unref no longer performs %s: a connection that is still referenced (an iteration handle, a retry job) '
+                      'loses it earlier or never gets it' % nm)
+            continue
         seq.append((nm, evs[0]))
         ctx.check('R3', '%s-under-last-reference' % nm, f.uncut_path(evs[0], last) is None, evs[0], '%s happens only when the last reference was dropped' % nm,
                   '%s can happen while references remain' % nm)
+    # who may take a connection off the service list: only the final unref (a referenced connection keeps valid neighbours,
+    # which is what qb_ipcs_connection_next_get walks)
+    for g in prog.all_fns(files={'lib/ipcs.c', 'lib/ipc_setup.c', 'lib/ipc_shm.c', 'lib/ipc_socket.c'}):
+        for ev in g.calls('qb_list_del'):
+            if any(n.get('k') == 'mem' and n.get('f') == 'list' and n.get('rec') == 'qb_ipcs_connection' for n in walk(ev.args[0])):
+                ctx.check('R3', 'unlink-only-in-final-unref:%s' % g.name, g.name == 'qb_ipcs_connection_unref', ev,
+                          'the connection leaves the service list in the final unref',
+                          '%s takes a connection off the service list while references may remain: qb_ipcs_connection_next_get(current) then follows '
+                          'the stale links of a disconnected connection into freed neighbours' % g.name)
     for i in range(len(seq) - 1):
         a, b = seq[i], seq[i + 1]
         ctx.check('R3', 'order:%s<%s' % (a[0], b[0]), f.may_follow(a[1], b[1]) and not f.may_follow(b[1], a[1]), b[1],
